@@ -392,6 +392,7 @@ def run(chk):
         ok4 &= pat.any_of(b[2], ["while not is_prime(L_res):\n    L_res = L_res + 2", "while not is_prime(L_res):\n    L_res += 2"], B4) is not None
         ok4 &= pat.match("return L_res", b[3], B4) is not None
     chk.ob("R16.4", "next_prime: <2 -> 2; start at (n+1)|1; +2 until is_prime", ok4, loc=g.qname, key="C16|R16.4", detail="next_prime has another shape: %s" % [norm_text(x)[:40] for x in b])
+    single_use_iterable(chk, p)
     # ---- R16.5 both calling conventions, on abstract arguments: gcd(X, Y, Z) and gcd([X, Y]) fold the
     # numbers with the binary function of that name; gcd(X) of a single number is X
     from sa import small as _sm
@@ -446,3 +447,78 @@ def run(chk):
     l2 = p.func("numbertheory:lcm2")
     r = [x for x in ast.walk(l2.node) if isinstance(x, ast.Return)]
     chk.ob("R16.5", "lcm2(a, b) = a*b // gcd(a, b)", len(r) == 1 and norm_text(r[0].value) in ("a * b // gcd(a, b)", "(a * b) // gcd(a, b)"), loc=l2.qname, key="C16|R16.5|lcm2", detail="lcm2 is %s" % (norm_text(r[0].value) if r else None))
+
+
+# ---------------------------------------------------------------------------- R16.7
+_CONSUMERS = {"reduce", "list", "tuple", "sum", "min", "max", "sorted", "any", "all", "set", "frozenset", "iter", "map", "filter", "enumerate", "zip"}
+
+
+def _consumptions(expr, aliases):
+    """how often `expr` iterates over a value named by `aliases` (texts of expressions)"""
+    n = 0
+    for x in ast.walk(expr):
+        if isinstance(x, ast.Compare) and any(isinstance(o, (ast.In, ast.NotIn)) for o in x.ops):
+            n += sum(1 for c in x.comparators if norm_text(c) in aliases)
+        elif isinstance(x, ast.Call):
+            fn = x.func.id if isinstance(x.func, ast.Name) else x.func.attr if isinstance(x.func, ast.Attribute) else ""
+            if fn in _CONSUMERS:
+                n += sum(1 for a in x.args if norm_text(a) in aliases)
+        elif isinstance(x, (ast.ListComp, ast.SetComp, ast.GeneratorExp, ast.DictComp)):
+            n += sum(1 for g in x.generators if norm_text(g.iter) in aliases)
+    return n
+
+
+def _max_consumption(stmts, aliases, count, star):
+    """maximum over the acyclic paths of the number of times the caller-supplied iterable is iterated"""
+    best = count
+    for i, s in enumerate(stmts):
+        if isinstance(s, ast.If):
+            c0 = count + _consumptions(s.test, aliases)
+            rest = stmts[i + 1:]
+            b1 = _max_consumption(list(s.body) + ([] if _ends(s.body) else rest), set(aliases), c0, star)
+            b2 = _max_consumption(list(s.orelse) + ([] if _ends(s.orelse) else rest), set(aliases), c0, star)
+            return max(best, b1, b2)
+        if isinstance(s, ast.For):
+            count += 1 if norm_text(s.iter) in aliases else 0
+            count += sum(_consumptions(b, aliases) for b in s.body)
+        elif isinstance(s, ast.Assign):
+            count += _consumptions(s.value, aliases)
+            src = norm_text(s.value)
+            for t in s.targets:
+                if isinstance(t, ast.Name):
+                    if src in aliases:
+                        aliases.add(t.id)
+                    elif t.id in aliases:
+                        aliases.discard(t.id)
+        elif isinstance(s, (ast.Return, ast.Expr)) and s.value is not None:
+            count += _consumptions(s.value, aliases)
+        best = max(best, count)
+        if isinstance(s, (ast.Return, ast.Raise)):
+            break
+    return best
+
+
+def _ends(body):
+    return bool(body) and isinstance(body[-1], (ast.Return, ast.Raise))
+
+
+_R167_POS = "def lcm(*a):\n    if len(a) == 1 and hasattr(a[0], '__iter__'):\n        a = a[0]\n    if 0 in a:\n        return 0\n    return reduce(lcm2, a, 1)\n"
+_R167_NEG = "def gcd(*a):\n    if len(a) > 1:\n        return reduce(gcd2, a)\n    if hasattr(a[0], '__iter__'):\n        return reduce(gcd2, a[0])\n    return a[0]\n"
+
+
+def single_use_iterable(chk, p):
+    chk.rule("R16.7", "gcd / lcm iterate over the caller-supplied iterable (their single argument) at most once on every path, so a one-shot iterator gives the same result as a list")
+
+    def worst(fnode):
+        star = fnode.args.vararg.arg if fnode.args.vararg else None
+        if star is None:
+            return 0
+        return _max_consumption(list(fnode.body), {"%s[0]" % star}, 0, star)
+
+    if worst(ast.parse(_R167_POS).body[0]) < 2 or worst(ast.parse(_R167_NEG).body[0]) != 1:
+        raise AnalysisError("R16.7 self-test of the use-count failed")
+    for nm in ("gcd", "lcm"):
+        f = p.func("numbertheory:" + nm)
+        w = worst(f.node)
+        chk.ob("R16.7", "%s consumes its iterable argument at most once [max %d]" % (nm, w), w <= 1, loc=f.qname, key="C16|R16.7|%s" % nm,
+               detail="%s iterates %d times over the iterable it was given (membership test / reduce / loop): with a one-shot iterator (generator, map, iter(...)) the later pass sees nothing and the result is wrong" % (nm, w))
